@@ -130,7 +130,7 @@ def shards(tier, seed):
     return out
 
 
-def cold_start(spec, ctx):
+def cold_start(spec, ctx, work=None, sig=None):
     """First use of the zone tables from several threads at once (the tables are built lazily): every thread's first
     round trip must already be right.  The module is reloaded before each round (cold tables) and a LINE hook yields
     inside hszinc/zoneinfo.py so that threads really overlap in the build."""
@@ -183,8 +183,11 @@ def cold_start(spec, ctx):
                     t = datetime.datetime(2021, 3, 28, 0, 30, 0, 123456) + datetime.timedelta(hours=i)
                     barrier.wait(timeout=20)
                     out = []
-                    for mode, mname in ((hszinc.MODE_ZINC, 'zinc'), (hszinc.MODE_JSON, 'json')):
-                        out.append(rt_one(_NullCtx(), hszinc, Z, tz, t, mode, mname))
+                    if work is not None:
+                        out = list(work(Z, tz, t))
+                    else:
+                        for mode, mname in ((hszinc.MODE_ZINC, 'zinc'), (hszinc.MODE_JSON, 'json')):
+                            out.append(rt_one(_NullCtx(), hszinc, Z, tz, t, mode, mname))
                     results[i] = out
                 except BaseException as e:   # noqa
                     results[i] = [('thread-raises:' + type(e).__name__, str(e)[:100])]
@@ -201,7 +204,9 @@ def cold_start(spec, ctx):
                     continue
                 for x in res:
                     if x:
-                        ctx.violation({'part': 'cold-start', 'kind': 'dt', 'symptom': x[0], 'features': ['threads=%d' % len(zs)]},
+                        base = dict(sig or {'part': 'cold-start', 'kind': 'dt'})
+                        base.update({'symptom': x[0], 'features': ['threads=%d' % len(zs), 'first-use-of-the-zone-tables']})
+                        ctx.violation(base,
                                       'first use of the zone tables from %d threads at once: zone %s: %s' % (len(zs), Z, x[1]),
                                       {'cold_start': True})
         ctx.count('cold-start line-hook hits', hits[0])
